@@ -76,8 +76,7 @@ def make_scenarios(ctx, count):
         s = H.Scenario("e%d" % i, meta=dict(frames=frames, own=cfg["mac"], mtu=mtu, rxseed=cfg["rxseed"]))
         s.iface(0, **H.iface_kw(cfg)).glob(**G.global_kw(G.rand_global(rng, icon_size=100)))
         s.add("OPT txcap=3000")
-        for fr in frames:
-            s.frame(0, fr)
+        s.frames(0, frames, rng if i % 2 else None, p_gap=0.25, base=True)
         scns.append(s)
     return scns
 
@@ -94,8 +93,7 @@ def make_session_scenarios(ctx, count):
         s = H.Scenario("es%d" % i, meta=dict(frames=frames, own=cfg["mac"], mtu=mtu, rxseed=cfg["rxseed"]))
         s.iface(0, **H.iface_kw(cfg)).glob(**G.global_kw(G.rand_global(rng, icon_size=100)))
         s.add("OPT txcap=3000")
-        for fr in frames:
-            s.frame(0, fr)
+        s.frames(0, frames, rng if i % 2 else None, p_gap=0.25, base=True)
         scns.append(s)
     return scns
 
@@ -234,3 +232,4 @@ def run(ctx):
     rep.need("emits_judged", c.get("emits_judged", 0), 1000)
     rep.need("inflated_emits", c.get("inflated_emits", 0), 100)
     rep.need("emit_n:cap", c.get("emit_n:cap", 0), 5)
+    rep.need("clock_gaps_between_frames", rep.counters.get("clock_gaps_between_frames", 0), 200)
